@@ -710,7 +710,48 @@ def r9_4(prog, rep, rule="R9.4"):
     rets = [n for n in walk_local(vc.node) if isinstance(n, ast.Return)]
     names = {n.id for n in ast.walk(rets[0].value) if isinstance(n, ast.Name)} if rets else set()
     defs = {unparse(s.targets[0]) for s in walk_local(vc.node) if isinstance(s, ast.Assign)}
-    obl(rep, vc, vc.node, rule, bool(defs) and defs <= names, "visitLazyCall returns the names from positional and keyword arguments",
+    okc = bool(defs) and defs <= names
+    if not okc and rets:
+        # by data flow: every list of findings (a value built from `.accept(self)` visits) reaches the returned value, through
+        # whatever temporaries, loops and list operations lie in between
+        edges = {}
+        for st in ast.walk(vc.node):
+            srcs, dsts = set(), set()
+            if isinstance(st, (ast.Assign, ast.AugAssign, ast.AnnAssign)):
+                tg = st.targets if isinstance(st, ast.Assign) else [st.target]
+                dsts = {n.id for t_ in tg for n in ast.walk(t_) if isinstance(n, ast.Name)}
+                srcs = {n.id for n in ast.walk(st.value) if isinstance(n, ast.Name)} if st.value is not None else set()
+                if isinstance(st, ast.AugAssign):
+                    srcs |= dsts
+            elif isinstance(st, (ast.For, ast.comprehension)):
+                dsts = {n.id for n in ast.walk(st.target) if isinstance(n, ast.Name)}
+                srcs = {n.id for n in ast.walk(st.iter) if isinstance(n, ast.Name)}
+            elif isinstance(st, ast.Call) and isinstance(st.func, ast.Attribute) and st.func.attr in ("append", "extend", "insert", "update", "add"):
+                b_ = st.func.value
+                while isinstance(b_, (ast.Attribute, ast.Subscript)):
+                    b_ = b_.value
+                if isinstance(b_, ast.Name):
+                    dsts = {b_.id}
+                    srcs = {n.id for a_ in st.args for n in ast.walk(a_) if isinstance(n, ast.Name)}
+            for u in srcs:
+                edges.setdefault(u, set()).update(dsts)
+        found = {unparse(s_.targets[0]) for s_ in walk_local(vc.node) if isinstance(s_, ast.Assign) and isinstance(s_.targets[0], ast.Name)
+                 and any(isinstance(c_, ast.Call) and isinstance(c_.func, ast.Attribute) and c_.func.attr == "accept" for c_ in ast.walk(s_.value))}
+
+        def reaches(u):
+            seen, work = set(), [u]
+            while work:
+                x = work.pop()
+                if x in names:
+                    return True
+                if x in seen:
+                    continue
+                seen.add(x)
+                work.extend(edges.get(x, ()))
+            return False
+
+        okc = len(found) >= 2 and all(reaches(u) for u in found)
+    obl(rep, vc, vc.node, rule, okc, "visitLazyCall returns the names from positional and keyword arguments",
         f"returned: {sorted(names)}", f"visitLazyCall computes {sorted(defs)} but returns only {sorted(names)}")
     # ... and from nothing else: the callee is a function (or a module path), not a column - its name, or a part of it, counted
     # as a used variable would pull an unrelated column of that name into the missing-value filter
